@@ -233,7 +233,7 @@ def rule_pair(ctx):
                     continue
                 if may_suspend_node(p, n, u):
                     verdict["susp"] = False
-        if notified and out[0] != "cut":
+        if notified and out[0] not in ("cut", "raise"):
             verdict["del"] = False
     if not verdict["found"]:
         dels = [n for n in walk_no_nested(u) if isinstance(n, ast.Delete) and any(isinstance(t, ast.Attribute) and t.attr == userf for t in n.targets)]
